@@ -138,10 +138,30 @@ class DictWriter:
                 "binding": self.write_binding(variable.binding),
                 "amount": variable.amount,
                 "alignment": variable.alignment,
+                "value": self.write_variable_value(variable.value),
             }
         else:  # pragma: no cover
             raise NotImplementedError(str(variable))
         return json_variable
+
+    def write_variable_value(self, value):
+        """Initial value: None or a list of data parts and references."""
+        if value is None:
+            return None
+        json_parts = []
+        for part in value:
+            if isinstance(part, bytes):
+                json_part = {"kind": "data", "data": bin2asc(part)}
+            elif isinstance(part, tuple) and isinstance(part[1], str):
+                json_part = {
+                    "kind": "reference",
+                    "type": self.write_type(part[0]),
+                    "name": part[1],
+                }
+            else:  # pragma: no cover
+                raise NotImplementedError(str(part))
+            json_parts.append(json_part)
+        return json_parts
 
     def write_subroutine(self, subroutine):
         json_binding = self.write_binding(subroutine.binding)
@@ -430,9 +450,24 @@ class DictReader:
         binding = self.construct_binding(json_variable["binding"])
         amount = json_variable["amount"]
         alignment = json_variable["alignment"]
-        variable = ir.Variable(name, binding, amount, alignment)
+        value = self.construct_variable_value(json_variable.get("value"))
+        variable = ir.Variable(name, binding, amount, alignment, value=value)
         self.register_value(variable)
         return variable
+
+    def construct_variable_value(self, json_parts):
+        if json_parts is None:
+            return None
+        parts = []
+        for json_part in json_parts:
+            if json_part["kind"] == "data":
+                part = asc2bin(json_part["data"])
+            elif json_part["kind"] == "reference":
+                part = (self.get_type(json_part["type"]), json_part["name"])
+            else:  # pragma: no cover
+                raise NotImplementedError(json_part["kind"])
+            parts.append(part)
+        return tuple(parts)
 
     def construct_subroutine(self, json_subroutine):
         name = json_subroutine["name"]
